@@ -32,7 +32,7 @@ open PlasVerif.Generated.GlobalState
 inductive MK | math | display
   deriving DecidableEq, Repr
 
-inductive ArgTy | number | dimen | tok | args | any | optnone | normal
+inductive ArgTy | number | dimen | tok | args | any | optnone | normal | numreg | dimenreg | gluereg
   deriving DecidableEq, Repr
 
 inductive Cls | article | book | report
@@ -43,7 +43,8 @@ inductive Ev
   | dollar                       -- a `$` character token
   | boxOpen | boxClose           -- `\hbox{` … `}`  (BoxCommand.parse)
   | listBegin | listEnd | item   -- `\begin{itemize}` `\end{itemize}` `\item`
-  | assign (r : Nat) (v : Int)   -- `\parindent=7pt\relax`
+  | assign (r : Nat) (v : Int)   -- `\parindent=7pt\relax`, `\tolerance=7\relax`, `\parskip=7pt\relax`, `\thinmuskip=7mu\relax`
+  | copy (r q : Nat)             -- `\thinmuskip=\medmuskip\relax`: the operand is another register of the family
   | use (r : Nat)                -- `\hskip\parindent\relax`
   | arg (ty : ArgTy)             -- a command whose argument has this type
   | docclass (c : Cls) | printindex
@@ -55,7 +56,7 @@ inductive Ev
 
 inductive Out
   | mopen (k : MK) | mclose (k : MK) | bo | bc | lb | le | item (i : Nat)
-  | asg (r : Nat) (v : Int) | asg0 (r : Nat) | text (v : Int) | use (r : Nat) (v : Int)
+  | asg (r : Nat) (v : Int) | asg0 (r : Nat) | text (v : Int) | eqsign | use (r : Nat) (v : Int)
   | arg (ty : ArgTy) | dc (c : Cls) | idx (sec : Bool) | newcol (n : Nat) | col (n : Nat) (known : Bool)
   | paren (b e : Bool) | node (id : Nat) | unk
   deriving DecidableEq, Repr
@@ -202,6 +203,16 @@ def step (v : Variant) (en : Ev × Bool) (s : S) : S × List Out :=
       let s2 := setRegs v (g2, s.2) ((getRegs v (g2, s.2)).set r x)
       (({ s2.1 with enabled := true }, s2.2), [Out.asg r x])
     else (s, [Out.asg0 r, Out.text x])
+  | .copy r q =>
+    if s.1.enabled then
+      -- as above; the value argument is read by readNumber/readDimen/readGlue/readMuGlue, which take the
+      -- register token as an "internal" quantity and re-enable before returning it
+      let g1 : G := { s.1 with enabled := false }
+      let g2 := balancedArg (balancedArg g1)
+      let x := (getRegs v (g2, s.2)).getD q 0
+      let s2 := setRegs v (g2, s.2) ((getRegs v (g2, s.2)).set r x)
+      (({ s2.1 with enabled := true }, s2.2), [Out.asg r x])
+    else (s, [Out.asg0 r, Out.eqsign, Out.asg0 q])     -- neither register command invokes
   | .use r => (onG balancedArg s, [Out.use r ((getRegs v s).getD r 0)])
   | .arg ty =>
     if ty = ArgTy.any then (onG (fun g => anyArg v (balancedArg g)) s, [Out.arg ty])
